@@ -260,6 +260,11 @@ func VH_C09_TransportLateConnect(late int) {
 	f1 := vhApiVersionsFrame(1, []vhApiRange{{10, 0, 0}, {3, 0, 1}})
 	fc := &vhFakeConn{data: append(append([]byte{}, f1...), vhFrameOf(2, w.b)...)}
 	fc.gate, fc.gateAfter = make(chan struct{}), 0 // the broker is slow to answer the handshake
+	if late == 2 {
+		// the handshake is answered at once; it is the answer to the call's own request that comes late: after the
+		// call gave up. The connection's goroutine must not be left waiting for somebody to take that answer.
+		fc.gateAfter = len(f1)
+	}
 	dials := 0
 	ready := make(event)
 	close(ready)
@@ -294,7 +299,11 @@ func VH_C09_TransportLateConnect(late int) {
 	fc.release()
 	vhSettle()
 	vhSettle()
-	if late == 1 {
+	if late == 2 {
+		p.unref()
+		vhSettle()
+		vhAssert(fc.closed, "connection-of-an-abandoned-call-is-closed-with-the-pool")
+	} else if late == 1 {
 		vhAssert(fc.closed, "connection-that-arrives-after-the-pool-was-closed-is-closed")
 	} else {
 		vhAssert(!fc.closed, "connection-kept-for-the-next-call")
@@ -307,4 +316,55 @@ func VH_C09_TransportLateConnect(late int) {
 		vhAssert(vhCoroDone(i), "no-goroutine-of-the-transport-outlives-the-pool")
 	}
 	vhReach("c09-transport-late-connect")
+}
+
+// C09-H7 (level S): Reader.Close on an idle partition. The background reader polls: its fetches come back empty.
+// Close is called while a fetch is in flight; the broker then answers that fetch (empty again). The reader must
+// notice the cancellation at its next loop turn: Close returns without any time having to pass and no further
+// fetch request is sent.
+func VH_C09_ReaderCloseIdle() {
+	vhConcreteClock(true)
+	meta := append(vhApiVersionsFrame(1, []vhApiRange{{int16(metadata), 0, 1}}), vhMetadataResponse(2, 1, "t", 0, 0, 1)...)
+	var s []byte
+	s = append(s, vhListOffsetsFrame(1, "t", 0, 0, -1, 0)...)
+	s = append(s, vhListOffsetsFrame(2, "t", 0, 0, -1, 0)...)
+	s = append(s, vhListOffsetsFrame(3, "t", 0, 0, -1, 0)...)
+	s = append(s, vhListOffsetsFrame(4, "t", 0, 0, -1, 0)...)
+	s = append(s, vhApiVersionsFrame(5, []vhApiRange{{int16(fetch), 0, 2}})...)
+	s = append(s, vhFetchResponse(6, 2, 0, "t", 0, 0, 0, nil)...)
+	end6 := len(s)
+	s = append(s, vhFetchResponse(7, 2, 0, "t", 0, 0, 0, nil)...)
+	end7 := len(s)
+	s = append(s, vhFetchResponse(8, 2, 0, "t", 0, 0, 0, nil)...)
+	leader := &vhFakeConn{data: s, gate: make(chan struct{}), gateAfter: end6}
+	conns := []*vhFakeConn{{data: meta}, leader}
+	dials := 0
+	d := &Dialer{DialFunc: func(c context.Context, network, address string) (net.Conn, error) {
+		if dials >= len(conns) {
+			return nil, io.ErrClosedPipe
+		}
+		fc := conns[dials]
+		dials++
+		return fc, nil
+	}}
+	r := NewReader(ReaderConfig{Brokers: []string{"b:9092"}, Topic: "t", Partition: 0, Dialer: d, MinBytes: 1, MaxBytes: 100000, MaxWait: time.Second,
+		ReadLagInterval: -1})
+	ctx := context.Background()
+	done3 := false
+	go func() { r.ReadMessage(ctx); done3 = true }()
+	vhSettle()
+	vhSettle()
+	inFlight := len(leader.written)
+	vhAssert(leader.off >= end6 && !done3, "second-fetch-in-flight-on-an-idle-partition")
+	closed := false
+	go func() { r.Close(); closed = true }()
+	vhSettle()
+	vhAssert(len(leader.written) == inFlight, "nothing-sent-while-the-fetch-is-in-flight")
+	leader.advance(end7) // the broker answers the fetch that was in flight: still no data
+	vhSettle()
+	vhSettle()
+	vhAssert(len(leader.written) == inFlight, "no-fetch-is-sent-after-close-was-called")
+	vhAssert(closed, "reader-close-returns-once-the-in-flight-fetch-is-answered")
+	vhAssert(done3, "blocked-read-returns-when-the-reader-is-closed")
+	vhReach("c09-reader-close-idle")
 }
